@@ -56,6 +56,7 @@ import http.cookiejar
 import uuid
 import xml.etree.ElementTree as ET
 import urllib.request as urllib_request
+import urllib.parse as urllib_parse
 import socket
 from io import BytesIO
 import itertools
@@ -490,7 +491,9 @@ class OFXClient:
         # A profile describes one server: key the cache by URL as well as by
         # ORG/FID, which many FIs leave blank and which needn't be unique.
         urlhash = hashlib.sha1((url or self.url).encode("utf_8")).hexdigest()[:12]
-        filename = f"{self.org}-{self.fid}-{urlhash}.profrs"
+        # ORG/FID are free text (e.g. "Cavion/Phoenix"); make them safe for a file name
+        ident = urllib_parse.quote(f"{self.org}-{self.fid}", safe="")
+        filename = f"{ident}-{urlhash}.profrs"
         persistdir = config.DATADIR / "fiprofiles"
         persistpath = persistdir / filename
 
